@@ -340,6 +340,17 @@ class C05Protocol:
         obs["lookups"] = None
         if not ex.hold:
             ex.held = []
+            # lookups of entities removed THROUGH THE WORKSPACE, before any collection: the
+            # harness holds no reference any more, and the library is expected to have taken
+            # the removed subtree apart (no cycle keeps it registered until the collector runs)
+            pre = {}
+            for how, idxs in removed_sets(ex):
+                if how != "ws":
+                    continue
+                i = idxs[0]
+                ws = ex.ws if ex.model.ws_of[i] == 1 else ex.ws2
+                pre[i] = [None if g is None else str(g.uid) for g in ws.get_entity(ex.uid[i])]
+            obs["lookups_pre_gc"] = pre
             world.full_collect()
             look = {}
             for how, idxs in removed_sets(ex):
@@ -450,6 +461,9 @@ def clauses_c05(ex, obs) -> list:
                     out.append(("no-reference-left", f"via-{how}:{role}:{label}:{','.join(sorted(set(hits)))}", {"uid": uid, "results": ex.results[-5:]}))
             # (3) lookups once the caller dropped its references (drop policy + GC)
             if obs["lookups"] is not None:
+                pre = (obs.get("lookups_pre_gc") or {}).get(i)
+                if pre is not None and any(g is not None for g in pre):
+                    out.append(("lookup-yields-nothing", f"via-{how}:{role}:by-uid-before-collection", {"uid": uid, "got": pre}))
                 got = obs["lookups"]["by_uid"].get(i)
                 if got is not None and any(g is not None for g in got):
                     out.append(("lookup-yields-nothing", f"via-{how}:{role}:by-uid", {"uid": uid, "got": got}))
